@@ -11,7 +11,7 @@ f=$(cd "$wt" && GOFLAGS=-mod=mod GOPROXY=off GOSUMDB=off go test -vet=off -count
 [ -n "$f" ] && { echo "EXISTING TESTS FAIL: $f"; exit 3; }
 bad=0
 for p in $props; do
-  out=$(VERIF_REPO="$wt" /verif/check $p quick 2>&1); rc=$?
+  out=$(VERIF_REPO="$wt" ${VERIF_HOME:-/verif}/check $p quick 2>&1); rc=$?
   if [ $rc -ne 0 ] || echo "$out" | grep -q "^VIOLATION"; then bad=$((bad+1)); echo "### $p rc=$rc"; echo "$out" | sed "s#$wt#/repo#g" | grep -vE "^(KNOWN|warning)" | cut -c1-500 | head -14; fi
 done
 echo "refactor_test: $(basename $(dirname $patch)) alarms=$bad"
